@@ -17,6 +17,21 @@ CLAIMS = {
  "C13": dict(cat="proof", ref="4/C13", tech="contract-based deductive verification: VCs from the real with_delay/_pulled/_source_updated of the three delay adapters and TimeDelayAdapter.get_data (ghost pull log), discharged by z3",
    text="Unbounded: with_delay of DelayFixed/DelayToPush/DelayToPull equals max(t-delay,start) / min(t,newest push) / max(n-th previous request - extra, start); _pulled keeps exactly the last `steps` original request times; TimeDelayAdapter.get_data sends exactly one request, for the shifted time, to its source and remembers the original time.",
    note="Input.pull_data and tools.prepare enter through their contracts (pull_data decided in C08, prepare assumed); the link to the scheduler's view (delays add up) is decided in C02; " + TB),
+ "C01": dict(cat="proof", ref="4/C01", tech="contract-based deductive verification: VCs from the real _find_dependencies (nested loop invariants over the Req walk) and Composition._update_recursive (recursion contract with the Ready predicate), Output.push_data/notify_targets, discharged by z3",
+   text="Unbounded over all link graphs, adapter chains and times: _find_dependencies records, for every input, the root output and the time that will really be requested (delays accumulate, dependency-breaking adapters end the dependency, nothing upstream of a buffering adapter is credited); _update_recursive only calls update() on a component u when Ready(u, u.next_time) holds in that state (every input's source has published up to the requested time, recursively through pull-based components); publications notify every target with the publication time.",
+   note="Ready is defined by spec axioms over the heap; assumed: well-formed finite link graph (decided in C19), with_delay monotone, user components pull at the announced time and publish once per update (interface contract), consumer side served when the requirement is met (C08/C09/C11 contracts). " + TB),
+ "C02": dict(cat="proof", ref="4/C02", tech="contract-based deductive verification: exactness post of _find_dependencies, OnChain post of _update_recursive, call-site obligation in Composition.run (least advanced component), TimeDelayAdapter.get_data pull log, discharged by z3",
+   text="Unbounded: every recorded dependency is the need of some input with exactly its accumulated request time (no over-/under-requirement); the component updated by _update_recursive is the argument or lies upstream of it along links whose source still lags (OnChain, established by the recursion contract); Composition.run hands the component with the smallest time to the recursion (list.sort model) and only while some component has not reached the end time; the time checked equals the time requested from the source (C13.2).",
+   note="list.sort(key) is modelled as a sorted permutation; OnChain is the least relation closed under the two lagging-link rules (only introduction rules are used); " + TB),
+ "C03": dict(cat="other", ref="4/C03", tech="contract-based deductive verification of Composition.run (loop invariants, loop-exit obligation), _check_status, _finalize_components (ghost finalize log); termination of run is NOT decided",
+   text="Proved (unbounded): when run leaves its loop no time component is unfinished and before end_time; an update is only started while some component is before end_time; each component is finalized once, in order, ends FINALIZED, every collected adapter is finalized exactly once (set iteration); status checks raise exactly on unexpected states. Not decided: termination of the whole run (liveness over user step sequences) and the connect-phase part of the life cycle.",
+   note="termination (C03.5) and strict monotonicity of component times are interface assumptions on user components (update advances time); connect() life-cycle calls are covered in C06; " + TB),
+ "C04": dict(cat="proof", ref="4/C04", tech="contract-based deductive verification of Composition._update_recursive: must-raise/raises clauses for FinamCircularCouplingError, implicit-exception safety of the message construction, chain = recursion stack post, discharged by z3",
+   text="Unbounded: FinamCircularCouplingError is raised exactly when the component is already on the active chain, no other exception type escapes (in particular none from building the message), a pull-based component that was served is taken off the chain (DAGs that reach it twice are not reported). With C01.1/C13 (delays accumulate, wherever they sit among pass-through adapters) a revisit needs lagging links all around the cycle.",
+   note="the telescoping lemma (sum of delays >= sum of steps => no revisit) and the connect-phase stall report (_connect_components) are not yet mechanised; a delay adapter upstream of a buffering adapter gives no credit by design (see DESIGN 5, F01); " + TB),
+ "C12": dict(cat="proof", ref="4/C12", tech="contract-based deductive verification: VCs from the real SumOverTime/AvgOverTime._interpolate (loop invariant sum = Area(i)) and TimeIntegrationAdapter._get_data; Area is a recursive spec function; induction lemmas and QF_NRA piece lemmas discharged by z3",
+   text="Unbounded: for linear and every step position in [0,1], per-time and absolute sums, the value accumulated by the real loop equals the exact integral (sum of closed-form pieces) of the interpolant over [prev pull, this pull]; the average divides it by the elapsed time; _get_data advances the window and keeps the bracketing entry. Lemmas: intervals after the window add nothing (induction), additivity over adjacent windows, mean-value bound, step weights = measure of the overlap below/above the step position.",
+   note="reals for floats; pint unit algebra not modelled in the arithmetic (Unit('s') = 1); windows p0 < p1 inside the published range (property domain); degenerate initial branch and _get_info covered by the native stand-in only; " + TB),
 }
 
 
